@@ -268,3 +268,52 @@ def translate(parse):
             "`try: ... finally: self._starting_requests -= 1` -/",
             "def h2StartingReleasedOnEveryPath : Bool := " + ("true" if fin else "false")]
     return out
+
+
+# ------------------------------------------------------------------------------------------------------------------------
+# the wrappers around a protocol connection (direct, CONNECT tunnel, SOCKS5): their four status predicates
+# ------------------------------------------------------------------------------------------------------------------------
+
+WRAP_ATOMS = {
+    "self._connection is None": "(!hasInner)", "self._connection is not None": "hasInner",
+    "self._connection.is_available()": "innerAvail", "self._connection.has_expired()": "innerExpired",
+    "self._connection.is_idle()": "innerIdle", "self._connection.is_closed()": "innerClosed",
+    "self._http2": "http2", "self._http1": "http1", "self._connect_failed": "connectFailed", "self._connected": "connected",
+    "self._origin.scheme == b'https'": "https", "self._remote_origin.scheme == b'https'": "https",
+}
+WRAP_PARAMS = "(hasInner connectFailed connected http1 http2 https innerAvail innerExpired innerIdle innerClosed : Bool)"
+
+
+def _wexpr(e):
+    t = ast.unparse(e)
+    if t in WRAP_ATOMS:
+        return WRAP_ATOMS[t]
+    if isinstance(e, ast.BoolOp):
+        return "(" + (" && " if isinstance(e.op, ast.And) else " || ").join(_wexpr(v) for v in e.values) + ")"
+    if isinstance(e, ast.UnaryOp) and isinstance(e.op, ast.Not):
+        return "(!" + _wexpr(e.operand) + ")"
+    raise ExtractError(f"wrapper predicate: expression not recognised: {t}")
+
+
+def _wbody(stmts, what):
+    stmts = [s for s in stmts if not (isinstance(s, ast.Expr) and isinstance(s.value, ast.Constant))]
+    if not stmts:
+        raise ExtractError(f"wrapper predicate {what}: empty body")
+    s = stmts[0]
+    if isinstance(s, ast.Return) and len(stmts) == 1:
+        return _wexpr(s.value)
+    if isinstance(s, ast.If) and not s.orelse:
+        return f"(if {_wexpr(s.test)} then {_wbody(s.body, what)} else {_wbody(stmts[1:], what)})"
+    raise ExtractError(f"wrapper predicate {what}: statement not recognised: {ast.unparse(s)[:80]}")
+
+
+def translate_wrappers(parse):
+    out = ["/-! ### the wrappers around a protocol connection: status predicates, translated from `connection.py`, `http_proxy.py`, `socks_proxy.py` -/"]
+    for rel, cls, tag in (("httpcore/_async/connection.py", "AsyncHTTPConnection", "Direct"),
+                          ("httpcore/_async/http_proxy.py", "AsyncTunnelHTTPConnection", "Tunnel"),
+                          ("httpcore/_async/socks_proxy.py", "AsyncSocks5Connection", "Socks")):
+        tree = parse(rel)
+        for meth, nm in (("is_available", "IsAvailable"), ("has_expired", "HasExpired"), ("is_idle", "IsIdle"), ("is_closed", "IsClosed")):
+            fn = _find(tree, cls, meth)
+            out += [f"/-- `{cls}.{meth}` -/", f"def wrap{tag}{nm} {WRAP_PARAMS} : Bool :=", "  " + _wbody(fn.body, f"{cls}.{meth}")]
+    return out
